@@ -194,7 +194,7 @@ impl WeightedSampler {
         let mut weighted_keys: Vec<(f64, NodeId)> = candidates
             .iter()
             .map(|(node_id, weight)| {
-                if *weight <= 0.0 {
+                if weight.is_nan() || *weight <= 0.0 {
                     return Err(PlacementError::InvalidWeight {
                         node_id: node_id.clone(),
                         weight: *weight,
@@ -213,7 +213,7 @@ impl WeightedSampler {
             .collect::<PlacementResult<Vec<_>>>()?;
 
         // Sort by key in descending order and take top k
-        weighted_keys.sort_by(|a, b| b.0.partial_cmp(&a.0).unwrap_or(std::cmp::Ordering::Equal));
+        weighted_keys.sort_by(|a, b| b.0.total_cmp(&a.0));
 
         Ok(weighted_keys
             .into_iter()
